@@ -437,8 +437,12 @@ func main() {
 		switch {
 		case *mode == "free":
 			for i := 0; i < *runs; i++ {
-				enc.Encode(r.executeFree(*client, *seed*1000003+int64(i)))
+				ex := r.executeFree(*client, *seed*1000003+int64(i))
+				enc.Encode(ex)
 				w.Flush()
+				if ex.Outcome == "deadlock" {
+					break // one minute each: one is enough
+				}
 			}
 		case len(p.Schedule) > 0 || *mode == "sched":
 			pos := 0
